@@ -76,6 +76,19 @@ def r1(ctx):
     okto = bool(durs) and all(F(P("config"), "timeout_secs") in atoms(d) and any(isinstance(x, tuple) and x[0] == "call" and (x[1].endswith("Duration::from_secs") or (x[1].endswith("Duration::new") and len(x[3]) == 2 and x[3][1] == 0)) for x in atoms(d)) for d in durs)
     rep.check(okto, "handle:timeout(read_frame)", "every read is bounded by from_secs(server config timeout)", "the idle timeout of a connection is %s, not Duration::from_secs of the server configuration's timeout" % (sorted(set(short(d, 60) for d in durs)) or "absent"), hb.loc())
     rep.check(pl["client"] is not None, "client-config:rx-timeout", "the server configuration reaches the Client built in the accept loop", "cannot follow the configuration from MemcacheTcpServer::new to the Client built in the accept loop", hb.loc())
+    # the listening socket as tokio and the thread-per-listener mode need it: non-blocking (TcpListener::from_std requires it —
+    # a blocking accept() stalls the runtime thread, and with it the clock and every connection of that thread) and
+    # SO_REUSEPORT (current-thread mode binds one listener per thread to the same port)
+    from rules.c17 import accept_paths
+
+    _rb, _rounds = accept_paths(ctx)
+    opts = {}
+    for p_, _evs in _rounds:
+        for e in p_.events:
+            if e.kind == "call" and e.name.split("::")[-1] in ("set_nonblocking", "set_reuse_port") and len(e.args) > 1:
+                opts.setdefault(e.name.split("::")[-1], set()).add(tform(e.args[1]))
+    rep.check(opts.get("set_nonblocking") == {1}, "listener:nonblocking", "listener socket set non-blocking before TcpListener::from_std", "the listening socket is %s: tokio's TcpListener::from_std needs a non-blocking socket, a blocking accept() stalls the runtime thread (clock and connections with it)" % ("set to blocking" if opts.get("set_nonblocking") else "never set non-blocking"), f.one(SERVER + "::run").loc())
+    rep.check(opts.get("set_reuse_port") == {1}, "listener:reuse_port", "SO_REUSEPORT set (one listener per thread in current-thread mode)", "SO_REUSEPORT is %s on the listening socket: in current-thread mode every thread binds its own listener to the same port — all but the first fail" % ("switched off" if opts.get("set_reuse_port") else "not set"), f.one(SERVER + "::run").loc())
     ls = pl["listen_args"]
     rep.check(bool(ls) and all(tform(a) == F(P("config"), "listen_backlog") for a in ls), "listen(backlog)", "listen(server config backlog)", "listen() is called with %s, not the configured backlog" % sorted(set(short(a, 40) for a in ls)), safe_loc(f, SERVER + "::run"))
     return rep
